@@ -81,7 +81,9 @@ func vhRule(tag string) []string {
 	case 1:
 		return []string{"DISALLOW", vhPattern(tag + ".pat")}
 	case 2:
-		return []string{"REQUIRE", vhName(tag + ".req")}
+		// REQUIRE takes a file name, not a pattern: a name with glob characters only matches an artifact
+		// that is literally called so
+		return []string{"REQUIRE", vPick(tag+".req", "a", "b", "d/a", "d/b", "e/a", "?", "d/*")}
 	case 3:
 		return []string{"CREATE", vhPattern(tag + ".pat")}
 	case 4:
